@@ -407,6 +407,7 @@ type Oblig struct {
 	Inputs  map[string]string // driver-visible input name -> SMT term
 	ValueNames []string
 	Trace string
+	Variants func() []string // weaker queries (dangerous hypotheses dropped), tried when the full one is undecided
 }
 
 var symRe = regexp.MustCompile(`\|[^|]*\|`)
@@ -525,6 +526,46 @@ func (E *Engine) oblige(st *State, kind, site, goal, pretty, pos string, cl *Cla
 	} else {
 		ob.SMT = E.render(st.pc, goal, c.inputs)
 		ob.ValueNames = E.lastValueNames
+		pc := st.pc
+		inputs := c.inputs
+		cur := E.cur
+		ob.Variants = func() []string {
+			var danger []int
+			for i, a := range pc {
+				if strings.Contains(a, "(forall ") && strings.Contains(a, "(exists ") {
+					danger = append(danger, i)
+				}
+			}
+			if len(danger) == 0 || len(danger) > 8 {
+				return nil
+			}
+			mk := func(keep int) string {
+				var as []string
+				for i, a := range pc {
+					isD := false
+					for _, d := range danger {
+						if d == i {
+							isD = true
+						}
+					}
+					if isD && i != keep {
+						continue
+					}
+					as = append(as, a)
+				}
+				saved := E.cur
+				E.cur = cur
+				defer func() { E.cur = saved }()
+				return E.render(as, goal, inputs)
+			}
+			out := []string{mk(-1)}
+			if len(danger) > 1 {
+				for _, d := range danger {
+					out = append(out, mk(d))
+				}
+			}
+			return out
+		}
 	}
 	E.Obligs = append(E.Obligs, ob)
 }
